@@ -107,12 +107,14 @@ fn odd_codes(t: &str) -> Vec<u32> {
 /// One real execution: emit, reload, re-emit. Pure recording.
 fn run_case(y: &Yaml, compact: bool, multiline: bool) -> Value {
     let tree = y.proj(false);
+    note_input(&tree.to_string());          // (progress for the stall watchdog: the tree about to be emitted)
     let (e1, text) = emit(y, compact, multiline);
     let mut rec = json!({"k": "RT", "compact": compact, "multiline": multiline, "tree": tree, "emit": e1, "text": text,
                          "load": "skipped", "ndocs": 0, "doc": {"t": "none"}, "emit2": "skipped", "text2": "", "odd": odd_codes(&text)});
     if rec["emit"] != "ok" {
         return rec;
     }
+    note_input(&text);
     let l = catch_unwind(AssertUnwindSafe(|| Yaml::load_from_str(&text)));
     match l {
         Err(p) => rec["load"] = json!(format!("panic: {}", panic_msg(p))),
